@@ -329,6 +329,9 @@ def run(prog, rep):
     rep.floor("C12.5", 2)
 
 
+# generic robustness battery: renaming every local/parameter in these files must not change any verdict
+RENAME_LOCALS = ['src/ptree.c', 'src/ptree-bst.c', 'src/ptree-rb.c', 'src/ptree-avl.c']
+
 SELFTEST = [
     dict(id="avl-remove-directions-swapped", file="src/ptree-avl.c", expect="C12.2",
          old="\t\tif (cmp_result < 0)\n\t\t\tcur_node = cur_node->left;\n\t\telse if (cmp_result > 0)\n\t\t\tcur_node = cur_node->right;",
